@@ -99,6 +99,7 @@ func main() {
 	nClock := 0
 	timeFiles := map[*ast.File]bool{}
 	runtimeFiles := map[*ast.File]bool{}
+	contextFiles := map[*ast.File]bool{}
 	randFiles := map[*ast.File]string{}
 	selBlocks := map[*ast.BlockStmt]*ast.SwitchStmt{}
 	for _, p := range pkgs {
@@ -275,6 +276,19 @@ func main() {
 						}
 						return true
 					}
+					if ok && pn.Imported().Path() == "context" {
+						// a deadline is a simulated timer
+						switch n.Sel.Name {
+						case "WithTimeout", "WithDeadline":
+							c.Replace(&ast.SelectorExpr{X: ast.NewIdent("__simrt"), Sel: ast.NewIdent("Ctx" + n.Sel.Name)})
+							needSimrt, changed = true, true
+							nClock++
+							contextFiles[f] = true
+						case "WithTimeoutCause", "WithDeadlineCause", "AfterFunc":
+							die("%s: context.%s is not supported by the timer seam", fname, n.Sel.Name)
+						}
+						return true
+					}
 					if !ok || pn.Imported().Path() != "time" {
 						return true
 					}
@@ -285,10 +299,34 @@ func main() {
 						nClock++
 						timeFiles[f] = true
 					case "After", "AfterFunc", "NewTimer", "NewTicker", "Tick":
-						die("%s: time.%s (timers) is not supported by the clock seam", fname, n.Sel.Name)
+						// timers are entries of the simulator's event list
+						c.Replace(&ast.SelectorExpr{X: ast.NewIdent("__simrt"), Sel: ast.NewIdent("Time" + n.Sel.Name)})
+						needSimrt, changed = true, true
+						nClock++
+						timeFiles[f] = true
+					case "Timer", "Ticker":
+						c.Replace(&ast.SelectorExpr{X: ast.NewIdent("__simrt"), Sel: ast.NewIdent(n.Sel.Name)})
+						needSimrt, changed = true, true
+						timeFiles[f] = true
 					}
 					return true
 				case *ast.CallExpr:
+					if id, ok := n.Fun.(*ast.Ident); ok && id.Name == "make" && len(n.Args) >= 1 {
+						// the channels the library makes are the simulator's
+						if _, isBuiltin := p.TypesInfo.Uses[id].(*types.Builtin); isBuiltin {
+							if t := p.TypesInfo.TypeOf(n); t != nil {
+								if _, isChan := t.Underlying().(*types.Chan); isChan {
+									c.Replace(&ast.CallExpr{
+										Fun:  &ast.SelectorExpr{X: ast.NewIdent("__simrt"), Sel: ast.NewIdent("RegChan")},
+										Args: []ast.Expr{n},
+									})
+									needSimrt, changed = true, true
+									nChan++
+								}
+							}
+						}
+						return true
+					}
 					if id, ok := n.Fun.(*ast.Ident); ok && id.Name == "close" && len(n.Args) == 1 {
 						if _, isBuiltin := p.TypesInfo.Uses[id].(*types.Builtin); isBuiltin {
 							n.Fun = &ast.SelectorExpr{X: ast.NewIdent("__simrt"), Sel: ast.NewIdent("ChanClose")}
@@ -383,8 +421,8 @@ func main() {
 				nFP++
 			}
 
-			for _, pkgPath := range []string{"time", "runtime", "math/rand", "math/rand/v2"} {
-				if (pkgPath == "time" && !timeFiles[f]) || (pkgPath == "runtime" && !runtimeFiles[f]) || (strings.HasPrefix(pkgPath, "math/rand") && randFiles[f] != pkgPath) {
+			for _, pkgPath := range []string{"time", "context", "runtime", "math/rand", "math/rand/v2"} {
+				if (pkgPath == "time" && !timeFiles[f]) || (pkgPath == "context" && !contextFiles[f]) || (pkgPath == "runtime" && !runtimeFiles[f]) || (strings.HasPrefix(pkgPath, "math/rand") && randFiles[f] != pkgPath) {
 					continue
 				}
 				// the file may have used the package for the rewritten calls only
